@@ -12,7 +12,8 @@ EXPLANATION = (
     "the track's own scene, and a batch job's result tuple carries the job's own scene id. "
     "(R04.5) in the batch VisualSORT the exclusively-owned-area shares are computed inside the per-scene loop from that scene's boxes only; (R04.6) scenes voted in parallel draw ids from one counter under one write-lock acquisition (a clash makes add_track fail inside a voting thread and the scene is not tracked); (R04.4) scene_id is written only by the attribute update. "
     "(R04.7) the idle listing of every tracker excludes Ok(Wasted) tracks, so what a scene reports does not depend on the collection timing driven by other scenes' calls."
-    ' (R04.8) PredictionBatchRequest::add files a detection under its own scene: the per-scene entry is selected and created by the scene id (keyed lookup), never by position in the batch; (R04.9) tracks of other scenes only add empty columns to the assignment: winners always derive from the one maximising assignment over an id-indexed matrix; R04.7 also covers wasted().')
+    ' (R04.8) PredictionBatchRequest::add files a detection under its own scene: the per-scene entry is selected and created by the scene id (keyed lookup), never by position in the batch; (R04.9) tracks of other scenes only add empty columns to the assignment: winners always derive from the one maximising assignment over an id-indexed matrix; R04.7 also covers wasted().'
+    ' (R04.10) a scene keeps its own clock and its own live tracks whatever other scenes do: epoch counters are never removed, the tracker-wide collection moves only tracks whose status is Ok(Wasted).')
 NOT_DECIDED = ["non-interference of whole runs as a two-run comparison", "the shared auto-waste counter (GC timing is "
                "covered by C03 R03.4: observers do not depend on it)"]
 ASSUMPTIONS = ["rustc nightly MIR construction", "Track::distances is the only path to the metric (checked in C02 R02.4)"]
